@@ -461,6 +461,22 @@ pub fn apply_seq(ev: &Value) -> Vec<Value> {
     let mut outs = Vec::new();
     let ids0: BTreeSet<u64> = cur["vars"].as_array().unwrap().iter().map(|v| v["id"].as_u64().unwrap()).collect();
     for (k, op) in inp["ops"].as_array().unwrap().iter().enumerate() {
+        if op["op"] == "encode_subst" {
+            // log-encode a variable, then substitute the encoding the call returned (the to-QUBO pipeline): two events
+            let e1 = json!({"ev":"log_encode","case":case,"step":k + 1,"src":ev["src"],"in":{"inst":cur,"vid":op["vid"]}});
+            let r1 = apply_one(&e1);
+            let o1 = r1[0]["out"].clone();
+            outs.extend(r1);
+            if o1["tag"] == "ok" {
+                let e2 = json!({"ev":"inst_subst","case":case,"step":k + 1,"src":ev["src"],"in":{"inst":o1["post"],"repl":[[op["vid"], o1["enc"]]]}});
+                let r2 = apply_one(&e2);
+                if r2[0]["out"]["tag"] == "ok" {
+                    cur = r2[0]["out"]["post"].clone();
+                }
+                outs.extend(r2);
+            }
+            continue;
+        }
         let mut one = json!({"ev": op["op"], "case": case, "step": k + 1, "src": ev["src"], "in": op});
         one["in"]["inst"] = cur.clone();
         one["in"].as_object_mut().unwrap().remove("op");
